@@ -4,7 +4,7 @@
    match table and the tuner's choice function (= every hyper-parameter assignment) are
    universally quantified. *)
 From Coq Require Import String List ZArith Reals QArith Qreals.
-From QV Require Import AutoQ.Search AutoQ.Forgiving AutoQ.Size.
+From QV Require Import AutoQ.Limits AutoQ.Search AutoQ.Forgiving AutoQ.Size.
 Import ListNotations.
 Open Scope string_scope.
 
@@ -121,3 +121,24 @@ Example C20_nonvacuous :
   render_select lims cfg (fun _ _ => false) ch [Ly "d0" "Dense" true AOther; Ly "fl" "Flatten" false ANone] None =
   ["d0={kernel_quantizer:quantized_bits(4,0,1);bias_quantizer:quantized_bits(4,0,1);activation_quantizer:quantized_relu(4,2)}"%string].
 Proof. vm_compute. reflexivity. Qed.
+
+(* ---- the per-class limit lists the search really uses: _adjust_limit pads short lists role by role ---- *)
+Theorem C20_short_limit_padded_by_role : forall (A : Type) (dflt l : list A) k b a,
+  (length dflt = 3 \/ length dflt = 4)%nat -> (length l < 3)%nat ->
+  d_kernel dflt = Some k -> d_bias dflt = Some b -> d_act dflt = Some a ->
+  pad_limit false dflt l = match l with [] => [k; b; a] | [x] => [x; b; a] | x :: y :: _ => [x; y; a] end.
+Proof. intros A. exact (@pad_limit_roles A). Qed.
+Print Assumptions C20_short_limit_padded_by_role.
+Theorem C20_short_recurrent_limit_padded_by_role : forall (A : Type) (d0 d1 d2 d3 : A) l, (length l < 4)%nat ->
+  pad_limit true [d0; d1; d2; d3] l =
+    match l with [] => [d0; d1; d2; d3] | [x] => [x; d1; d2; d3] | [x; y] => [x; y; d2; d3] | x :: y :: z :: _ => [x; y; z; d3] end.
+Proof. intros A. exact (@pad_limit_roles_seq A). Qed.
+Print Assumptions C20_short_recurrent_limit_padded_by_role.
+Theorem C20_complete_limit_untouched : forall (A : Type) (seq : bool) (dflt l : list A),
+  ((if seq then 4 else 3) <= length l)%nat -> pad_limit seq dflt l = l.
+Proof. intros A. exact (@pad_limit_complete A). Qed.
+Print Assumptions C20_complete_limit_untouched.
+Theorem C20_single_slice_padding_refuted : exists (dflt l : list nat), length dflt = 4%nat /\
+  nth_error (pad_slice 3 dflt l) 2 <> d_act dflt /\ nth_error (pad_limit false dflt l) 2 = d_act dflt.
+Proof. exact pad_slice_refuted. Qed.
+Print Assumptions C20_single_slice_padding_refuted.
